@@ -1,17 +1,15 @@
 (* C16 — cancelling a source stops its handler and runs the cancel handler once.
    Model: Model/SrcLife.v.  `phase` is _dispatch_source_invoke2 (source.c:715-887) cut at its reads of dq_atomic_flags and at
-   the client callouts, `wakeup_target` is _dispatch_source_wakeup (source.c:910-979), `gstep` is the interleaving model
-   (cancel / cancel_and_wait / events / phases of the lock owner, any number of threads).  The rmw bodies on
-   dq_atomic_flags and the DSF_* constants are Gen_srclife, regenerated from src/source.c.
-
-   WHAT IS PROVED HERE: statements about every phase of invoke2 in every state (all source kinds, all values of the inputs
-   the model does not compute, any flags word), and the characterisation of the final state.
-   WHAT IS NOT (named _partial, full statements kept in comments): the theorems over all interleavings
-   (reachable-state invariants of `gstep`): the invariant is written out in the worker report, its preservation proof was
-   not completed in the time budget.  The interleaving claims are covered by the stress oracle and the trace
-   conformance of lib/props/c16.py only. *)
+   the client callouts, `wakeup_target` is _dispatch_source_wakeup (source.c:910-979), `gstep` is the interleaving model:
+   cancel (from a thread / from the handler / from an item on the serial target queue), cancel_and_wait (first rmw loop,
+   try-lock, waiter CAS, futex), release, merge_data, event delivery and hang-up by the manager, activation, invoke on any
+   queue, one phase of the lock owner per step; any number of threads.  The rmw bodies on dq_atomic_flags and the DSF_*
+   constants are Gen_srclife, regenerated from src/source.c.
+   `reach k ev ca rg g`: g is reachable from the initial state of a source of kind k with event / cancel / registration
+   handlers installed as ev / ca / rg, by ANY interleaving of those steps.  All theorems below are about every such g
+   (Proofs/SrcLife_proofs.v: Inv g := GInv g /\ forall t, TInv g t, preserved by every step). *)
 From Coq Require Import ZArith Bool List.
-From Verif Require Import Word Conc Gen_consts Gen_srclife SrcLife SrcLife_proofs.
+From Verif Require Import Word Conc Gen_consts Gen_srclife SrcLife SrcLife_phase_proofs SrcLife_proofs.
 Import ListNotations.
 Local Open Scope Z_scope.
 
@@ -40,19 +38,13 @@ Print Assumptions C16_finalize_is_source.
    loop variable `oqf` as a free parameter (reported to the lead) *)
 
 
-(* FULL: C16_no_event_after_cancel_observed : forall g, reach k ev ca rg g ->
-     0 <= late_starts g <= 1 /\ (1 <= late_starts g -> origin g = Some CxThread) /\
-     (o_pc g = OLatch -> late_starts g = 0 /\ o_q g = QTarget)
-   i.e. once CANCELED is set at most one event handler invocation starts, and none when the cancel that set the flag came
-   from the handler or from an item of the serial target queue.
-   PROVED (per phase, every state): an event handler invocation starts only from the committed point OLatch; OLatch is
-   entered only by the phase that reads the flags (source.c:792), on the target queue, and only if that read saw neither
-   CANCELED nor RELEASED; the cancel handler starts only from source.c:845 on the target queue with CANCELED set now and
-   DELETED seen (or, in cancel_and_wait's own callout, where the API forbids a cancel handler), it takes the slot
-   (handler_take), and no phase ever refills the slot; CANCELED / RELEASED / DELETED are never cleared by a phase; DELETED
-   appears only through _dispatch_source_refs_finalize_unregistration.
-   Missing for the full statement: the induction over interleavings (counters late_starts / ch_count). *)
-Theorem C16_callouts_partial : forall k q o i,
+(* the commit point: an event handler invocation starts only from OLatch; OLatch is entered only by the phase that reads the
+   flags (source.c:792), on the target queue, and only if that read saw neither CANCELED nor RELEASED (and pending data);
+   the cancel handler starts only from source.c:845 on the target queue with CANCELED set now and DELETED seen (or in
+   cancel_and_wait's own callout, where the API forbids a cancel handler); starting it takes the slot; no phase refills a
+   slot; CANCELED / RELEASED / DELETED are never cleared; DELETED appears only through finalize_unregistration.
+   (every phase, every state, every kind, every value of the inputs the model does not compute) *)
+Theorem C16_commit_point : forall k q o i,
   let p := phase k q o i in let s := i_src i in let s' := res_src p in let a := res_acts p in
   (h_ca s = false -> h_ca s' = false) /\
   (canceled (fl s') = canceled (fl s) /\ released (fl s') = released (fl s) /\ (deleted (fl s) = true -> deleted (fl s') = true)) /\
@@ -65,34 +57,90 @@ Theorem C16_callouts_partial : forall k q o i,
   (deleted (res_dqf' p) = true -> deleted (i_dqf i) = true \/ deleted (fl s) = true) /\
   (count AChDispose a = 0 \/ (count AChDispose a = 1 /\ h_ca s = true /\ h_ca s' = false /\ canceled (fl s) = false)).
 Proof. exact phase_facts. Qed.
-Print Assumptions C16_callouts_partial.
+Print Assumptions C16_commit_point.
 
-(* FULL: C16_after_last_event_and_unregistration : forall g, reach k ev ca rg g -> Sinv (g_k g) (g_s g), and every step
-   that starts the cancel handler does so in a state with DELETED set and kreg = false.
-   PROVED: every phase of invoke2 (and of cancel_and_wait's locked path) preserves the structural invariant: DELETED implies
-   nothing is registered with the event system (kreg = false: muxnote removed from epoll / timer out of the heap), no
-   waiter bit and no NEEDS_EVENT bit left, and for every kind but the custom data sources the unote state is 0 and the
-   source is installed; a registration implies wlh bits, wlh bits imply installed.
-   Missing: the same for the non-phase steps (activate, event delivery, cancel_and_wait's first loop), which are one-line
-   updates, and the induction. *)
-Theorem C16_unregistered_when_deleted_partial : forall k q o i,
-  Pinv k (i_src i) (i_pc i) -> Pinv k (res_src (phase k q o i)) (res_pc (phase k q o i)).
-Proof. exact phase_Pinv. Qed.
-Print Assumptions C16_unregistered_when_deleted_partial.
+(* once CANCELED is set at most one more event handler invocation starts (late_starts counts the starts made while the flag is
+   set): the one that had committed (OLatch, entered on a read that preceded the set, see C16_commit_point); and none at all
+   when the cancel that set the flag came from the source's own handler or from an item on the serial target queue *)
+Theorem C16_no_event_after_cancel_observed : forall k ev ca rg g, reach k ev ca rg g ->
+  0 <= late_starts g <= 1 /\ (1 <= late_starts g -> origin g = Some CxThread) /\
+  (origin g = Some CxHandler \/ origin g = Some CxTqItem -> late_starts g = 0).
+Proof. exact at_most_one_late_start. Qed.
+Print Assumptions C16_no_event_after_cancel_observed.
 
-(* C16_converges: whatever the history (cancel before activation, cancel twice, cancel_and_wait), a cancelled source on
-   which _dispatch_source_wakeup finds nothing more to do is in ONE final state: DELETED, no waiter, no NEEDS_EVENT, all
-   three handler slots released, nothing registered — or it is parked on DSF_NEEDS_EVENT waiting for the kernel's delete
-   event (cannot happen on this platform: unregistration always succeeds; this is the part that depends on the kernel).
-   partial: the hypothesis Sinv is proved preserved by phases only (see above); progress (each requested invoke
-   terminates and gets closer) is not proved. *)
-Theorem C16_converges_partial : forall k s,
-  Sinv k s -> canceled (fl s) = true -> (forall o, wakeup_target k o false false s = RNone) ->
-  (deleted (fl s) = true /\ waiter (fl s) = false /\ needs_event (fl s) = false /\ h_ev s = false /\ h_ca s = false /\
-   h_reg s = false /\ kreg s = false /\ installed s = true /\ (custom k = false -> registered s = false)) \/
-  (needs_event (fl s) = true /\ deleted (fl s) = false).
-Proof. exact wakeup_final. Qed.
-Print Assumptions C16_converges_partial.
+(* the cancel handler is invoked at most once in any run; once its slot has been released it has been invoked exactly once
+   (unless the last reference was dropped on a source that was never cancelled: then it is disposed of, not called);
+   the final state (C16_converges) has the slot released *)
+Theorem C16_cancel_handler_exactly_once : forall k ev ca rg g, reach k ev ca rg g ->
+  0 <= ch_count g <= 1 /\ (h_ca (g_s g) = true -> ch_count g = 0) /\
+  (h_ca (g_s g) = false -> ch_set g = true -> released (fl (g_s g)) = false -> ch_count g = 1) /\
+  (ch_set g = false -> ch_count g = 0).
+Proof. exact cancel_handler_exactly_once. Qed.
+Print Assumptions C16_cancel_handler_exactly_once.
+
+(* the cancel handler starts only: in a phase of the thread that holds the drain lock (so no event handler invocation is in
+   progress: the owner is at source.c:845), running on the target queue, with CANCELED and DELETED set and the unote no
+   longer registered with the event system (epoll entry / muxnote / timer heap gone, du_state = 0), and it has not run before *)
+Theorem C16_after_last_event_and_unregistration : forall k ev ca rg g t a g' acts,
+  reach k ev ca rg g -> gstep g t a = Some (g', acts) -> count AChBegin acts <> 0 ->
+  o_q g = QTarget /\ owner g = Some t /\ o_pc g = OP4 /\ canceled (fl (g_s g)) = true /\ deleted (fl (g_s g)) = true /\
+  kreg (g_s g) = false /\ registered (g_s g) = false /\ ch_count g = 0.
+Proof. exact cancel_handler_start. Qed.
+Print Assumptions C16_after_last_event_and_unregistration.
+
+(* an event handler invocation starts only from the committed point of the lock owner, on the target queue, and only while
+   the cancel handler has not run: no event handler invocation starts after the cancel handler (C16_on_target_queue is the
+   o_q g = QTarget conjunct here and above) *)
+Theorem C16_no_event_after_cancel_handler : forall k ev ca rg g t a g' acts,
+  reach k ev ca rg g -> gstep g t a = Some (g', acts) -> count AEhBegin acts <> 0 ->
+  ch_count g = 0 /\ o_pc g = OLatch /\ o_q g = QTarget /\ owner g = Some t /\ late_starts g = 0 /\
+  (canceled (fl (g_s g)) = true -> origin g = Some CxThread).
+Proof. exact event_handler_start. Qed.
+Print Assumptions C16_no_event_after_cancel_handler.
+
+(* DISPATCH_INTERNAL_CRASH("Source finalized twice") is unreachable: no step finalizes a source that has DELETED set *)
+Theorem C16_finalized_once : forall k ev ca rg g t a g' acts,
+  reach k ev ca rg g -> gstep g t a = Some (g', acts) -> existsb is_fin_twice acts = false.
+Proof. exact finalized_once. Qed.
+Print Assumptions C16_finalized_once.
+
+(* DELETED implies: nothing registered with the event system, unote state 0, source installed, no waiter bit, no NEEDS_EVENT *)
+Theorem C16_deleted_means_unregistered : forall k ev ca rg g, reach k ev ca rg g -> Sinv (g_k g) (g_s g).
+Proof. exact deleted_means_unregistered. Qed.
+Print Assumptions C16_deleted_means_unregistered.
+
+(* dispatch_source_cancel_and_wait: whenever a caller sleeps in futex_wait the CANCEL_WAITER bit is set and DELETED is not, so
+   the finalize that sets DELETED sees the bit and wakes (model: finalize's flag update and FUTEX_WAKE are one step); a step
+   after which DELETED is set leaves nobody asleep; no call returns before DELETED is set *)
+Theorem C16_sleepers_woken : forall k ev ca rg g, reach k ev ca rg g ->
+  (forall u, slp g u = true -> cpc g u = CWSleep /\ waiter (fl (g_s g)) = true /\ deleted (fl (g_s g)) = false) /\
+  caw_early g = false.
+Proof. exact sleepers_woken. Qed.
+Print Assumptions C16_sleepers_woken.
+Theorem C16_deletion_wakes_everyone : forall k ev ca rg g t a g' acts,
+  reach k ev ca rg g -> gstep g t a = Some (g', acts) -> deleted (fl (g_s g')) = true -> forall u, slp g' u = false.
+Proof. exact deletion_wakes_everyone. Qed.
+Print Assumptions C16_deletion_wakes_everyone.
+
+(* convergence = confluence of the final state: whatever the history (cancel before activation, cancel twice, from the
+   handler, cancel_and_wait by several threads, release, hang-up ...), a cancelled source on which _dispatch_source_wakeup
+   has nothing more to ask for is in ONE final state: CANCELED|DELETED, no waiter, no NEEDS_EVENT, the three handler slots
+   released, unote state 0, nothing registered, installed.
+   reachL = reachable by steps in which unregistration succeeds, which is every step on this platform
+   (_dispatch_unote_unregister returns true for custom filters, timers and muxed unotes; no direct knotes).
+   C16_converges_any_backend is the same without that platform fact: the other possibility is a source parked on
+   DSF_NEEDS_EVENT until the kernel delivers the delete event.
+   Not covered (belongs to the lane layer, C01, and to the kernel): that the invokes _dispatch_source_wakeup asks for are
+   eventually performed. *)
+Theorem C16_converges : forall k ev ca rg g, reachL k ev ca rg g -> canceled (fl (g_s g)) = true ->
+  (forall o, wakeup_target (g_k g) o false false (g_s g) = RNone) -> final_src (g_s g).
+Proof. exact converges. Qed.
+Print Assumptions C16_converges.
+Theorem C16_converges_any_backend : forall k ev ca rg g, reach k ev ca rg g -> canceled (fl (g_s g)) = true ->
+  (forall o, wakeup_target (g_k g) o false false (g_s g) = RNone) ->
+  final_src (g_s g) \/ (needs_event (fl (g_s g)) = true /\ deleted (fl (g_s g)) = false).
+Proof. exact converges_any_backend. Qed.
+Print Assumptions C16_converges_any_backend.
 
 (* non-vacuity: a read source is installed on the manager queue, an event arrives, invoke2 on the target queue commits to
    the handler (OLatch), a cancel from another thread lands in that window: exactly that one invocation still starts
